@@ -1037,6 +1037,9 @@ def check_hdr_history(st, steps, ops, what="PduHeader"):
                 return st, ("C05/PduHeader.history/undocumented-error", "%s raised %s" % (where, core.ERR_NAMES.get(status[1], status[1])))
             if verdict == "ok":
                 return st, ("C05/PduHeader.history/refuses-valid", "%s was refused" % where)
+            if verdict == "any" and l[0] not in (15, 16) and status[1] != core.E_VALUE:
+                return st, ("C05/PduHeader.history/out-of-domain-value-error-class", "%s (a value outside the domain) was refused with %s, not with ValueError" % (
+                    where, core.ERR_NAMES.get(status[1], status[1])))
             r = check_hdr_state(st, flat, idoct, where + " (refused)")
             if r:
                 return st, ("C05/PduHeader.history/refused-op-changed-state", r[1])
